@@ -458,7 +458,6 @@ class View:
         for m in tr["marks"]:
             if m["what"] in ("stopped", "killed"):
                 self.ends[m["inc"]] = m["t"]
-        self.global_of_loop = None
 
     def writer(self, v: dict) -> dict | None:
         m = _meta(v["body"])
@@ -471,9 +470,6 @@ class View:
 
     def uids(self) -> list[str]:
         return list(dict.fromkeys(_meta(v["body"]).get("uid") for v in self.hist))
-
-    def t_global(self, loop_t: float) -> float:
-        return loop_t   # one loop per scenario: loop time == global virtual time
 
     # -- the handler/daemon log ---------------------------------------------------------------------
     def finished(self, h: dict, uid: str, T: float) -> bool:
@@ -499,16 +495,6 @@ class View:
                 continue      # its operator process is gone
             out.append(c)
         return out
-
-    def exited_on_its_own(self, h: dict, uid: str, inc: int, T: float) -> bool:
-        return any(c["id"] == h["id"] and c.get("uid") == uid and c["inc"] == inc and c.get("outcome") == "exited-on-its-own"
-                   and c.get("t_end") is not None and c["t_end"] <= T for c in self.tr["calls"])
-
-    def t_marked(self, uid: str) -> float | None:
-        for v in self.versions(uid):
-            if _meta(v["body"]).get("deletionTimestamp"):
-                return v["t"]
-        return None
 
     def required_at(self, uid: str, labels: dict, T: float) -> list[str]:
         """Who requires the finalizer at instant T on an object with these labels (from the statement)."""
